@@ -1,4 +1,4 @@
-import Vflow.Proofs.SflowSafe
+import Vflow.Proofs.SflowCost
 /-!
 # C02 (sFlow share) — decoding work and output are bounded by the datagram's size
 
@@ -76,6 +76,19 @@ theorem records_le (n : Nat) (bs r : Bytes) (items : List (Option FlowRec))
     (h : loopN flowRecord (bs.length + 1) n bs = .ok (items, r)) : 8 * n ≤ bs.length := by
   have := (loopN_good flowRecord_good _ n bs (by omega)).2 items r h
   omega
+
+/-- **C02 (allocation)**: the allocation count of one decode call (`decodeCost`, the instrumented twin of
+`Vflow.Model.SflowCost`: `n` units per `make([]byte, n)` with a wire-derived size, 1–2 per fixed-size
+object of a step) is linear in the number of octets received — never in a length or count field.  The
+slope 64 comes from the 1500-octet header cap (a raw-header record of ≥ 25 octets can request at most
+1503), the constant from the one request that may exceed what is left of a truncated datagram. -/
+theorem alloc_linear (f : List Nat) (bs : Bytes) : decodeCost f bs ≤ 64 * bs.length + 1525 :=
+  decodeCost_le f bs
+
+/-- non-vacuity of the allocation bound (F5 witness): an extended-router record announcing length 4
+(which made the unrepaired code request 4 GiB) costs 2 units, a valid one its 8-octet buffer -/
+example : flowRecordCost [0,0,3,234, 0,0,0,4, 0,0,0,1, 192,0,2,9, 0,0,0,24, 0,0,0,16] = 2 ∧
+    flowRecordCost [0,0,3,234, 0,0,0,16, 0,0,0,1, 192,0,2,9, 0,0,0,24, 0,0,0,16] = 10 := by decide
 
 /-- non-vacuity: a datagram announcing 4 294 967 295 samples but carrying none ends with an error after
 one failed read — no fuel, no panic -/
